@@ -134,6 +134,71 @@ def work(chunk, points=None, tier='quick', quick_slice=0):
     return acc
 
 
+# ---------------------------------------------------------------------------------------------
+# full_output given as another true value (1, numpy.True_): the record must be the same record
+
+def _mexp(x):
+    return np.exp(x[0]) + x[0] * x[1] * x[1] + np.sin(x[1])
+
+
+def _vexp(x):
+    return np.array([np.exp(x[0]) * x[1], x[0] + np.sin(x[1]) * x[0]])
+
+
+def flag_cases():
+    out = []
+    for method in cm.METHODS:
+        for n in (1, 2, 3):
+            if method == 'multicomplex' and n > 2:
+                continue
+            for xk in ('scalar', 'array'):
+                out.append(('Derivative', method, n, 2, xk))
+    for cls in ('Gradient', 'Jacobian', 'Hessdiag', 'Hessian'):
+        for method in ('central', 'forward', 'complex'):
+            out.append((cls, method, 1 if cls in ('Gradient', 'Jacobian') else 2, 2, 'array'))
+    return out
+
+
+def work_flags(chunk):
+    import warnings
+    import numdifftools as nd
+    acc = fw.Acc()
+    for cls, method, n, order, xk in chunk:
+        f = np.exp if cls == 'Derivative' else (_vexp if cls == 'Jacobian' else _mexp)
+        x = 0.75 if xk == 'scalar' else np.array([0.75, 1.25])
+        kw = dict(method=method)
+        if cls == 'Derivative':
+            kw['n'] = n
+        if cls != 'Hessian':
+            kw['order'] = order
+        recs = {}
+        for name, flag in (('True', True), ('1', 1), ('numpy.True_', np.True_)):
+            fw.fresh_library_state()
+            try:
+                with warnings.catch_warnings():
+                    warnings.simplefilter('ignore')
+                    with np.errstate(all='ignore'):
+                        val, info = getattr(nd, cls)(f, full_output=flag, **kw)(x)
+                recs[name] = fw.obs((val, info.f_value, info.error_estimate, info.final_step, info.index))
+                fval = np.asarray(info.f_value)
+            except Exception as e:      # noqa: BLE001
+                recs[name] = ('raised', type(e).__name__, str(e)[:100])
+                fval = None
+            case = ('flag', cls, method, n, order, xk, name)
+            jc = dict(kind='flag', cls=cls, method=method, n=n, order=order, x=xk, full_output=name)
+            acc.case(case, nontrivial=True, cell='flag/%s' % cls, outcome=recs[name] == recs['True'])
+            with np.errstate(all='ignore'):
+                direct = np.asarray(f(np.asarray(x)))
+            if fval is not None and not (fval.size == direct.size and np.array_equal(np.ravel(fval), np.ravel(direct))):
+                acc.violation('C02:%s:f_value:%s' % (cls, method), jc,
+                              '%s(f, full_output=%s, %r)(%r): info.f_value %r != f(x) %r' % (cls, name, kw, x, fval.tolist(), direct.tolist()), 1)
+            elif recs[name] != recs['True']:
+                acc.violation('C02:%s:record-depends-on-flag-spelling:%s' % (cls, method), jc,
+                              '%s(f, full_output=%s, %r)(%r) returned a different record than full_output=True' % (cls, name, kw, x), 2)
+    fw.fresh_library_state()
+    return acc
+
+
 def run(ctx):
     sp = c01.specs(ctx)
     points = cm.quick_points(ctx) if ctx.quick else cm.POINTS
@@ -142,6 +207,7 @@ def run(ctx):
         import json
         print(json.dumps({k: v for k, v in sorted(acc.extra.items())}, indent=0))
         return 0
+    acc.merge(ctx.pmap(work_flags, flag_cases(), chunk=4))
     try:
         from mc.props import c02_multi
         acc.merge(c02_multi.run_multi(ctx))
@@ -149,7 +215,7 @@ def run(ctx):
         pass
     for s in sp[:3] + sp[len(sp) // 2:len(sp) // 2 + 2]:
         acc.sample(dict(f=c01.spec_show(s), points=points[:4], configs='all (method, n, order)', full_output=True))
-    req = ['%s/n=%d' % (m, n) for m in cm.METHODS for n in range(1, cm.NMAX[m] + 1)]
+    req = ['%s/n=%d' % (m, n) for m in cm.METHODS for n in range(1, cm.NMAX[m] + 1)] + ['flag/Derivative', 'flag/Hessian']
     rule = ('same space as C01 (%d specs x points %r x 240 configs, scalar + array calls%s) with full_output=True; '
             '(a) on class-A cases err <= K1(method,n) x error_estimate + F(method,n) x S_n x fac (constants frozen in '
             'envelopes.json, F <= E/100); (b) on every call: f_value == f(x) bit for bit, estimate finite and >= 0 where '
@@ -161,6 +227,10 @@ def run(ctx):
 
 
 def replay(case):
+    if case.get('kind') == 'flag':
+        a = work_flags([(case['cls'], case['method'], case['n'], case['order'], case['x'])])
+        bad = [r['detail'] for k, (n, recs) in a.viol.items() for r in recs]
+        return not bad, '%r -> %s' % (case, bad or 'same record for every spelling of a true full_output')
     spec = c01._tuplify(case['spec'])
     cfg = tuple(case['cfg'])
     gen = (case['gen'][0], case['gen'][1])
